@@ -28,7 +28,7 @@ pub enum Entry {
 pub const ENTRIES: [Entry; 9] = [Entry::TryFromSlice, Entry::TryFromVec, Entry::TryFromPkcs8Der, Entry::TryFromPrivateKeyDer, Entry::FromPem, Entry::FromPkcs8DerAlg, Entry::FromPkcs8PemAlg, Entry::FromDerAlg, Entry::FromPemAlg];
 
 impl Entry {
-    fn takes_alg(self) -> bool {
+    pub fn takes_alg(self) -> bool {
         matches!(self, Entry::FromPkcs8DerAlg | Entry::FromPkcs8PemAlg | Entry::FromDerAlg | Entry::FromPemAlg)
     }
     fn pkcs8_only(self) -> bool {
@@ -45,7 +45,7 @@ fn pem_label(format: KeyFormat) -> &'static str {
 }
 
 #[cfg(feature = "crypto")]
-fn load(entry: Entry, der: &[u8], format: KeyFormat, alg: Option<Alg>) -> Result<Result<KeyPair, rcgen::Error>, String> {
+pub fn load(entry: Entry, der: &[u8], format: KeyFormat, alg: Option<Alg>) -> Result<Result<KeyPair, rcgen::Error>, String> {
     let a = alg.map(|a| rc_alg(a).expect("algorithm available in this back end"));
     let pem = refmodel::pem::encode(pem_label(format), der);
     guarded(|| match entry {
@@ -71,7 +71,7 @@ fn load(entry: Entry, der: &[u8], format: KeyFormat, alg: Option<Alg>) -> Result
 fn expected(kind: KeyKind, format: KeyFormat, entry: Entry, alg: Option<Alg>) -> Option<Alg> {
     let aws = cfg!(feature = "aws");
     let format_ok = if entry.pkcs8_only() { format == KeyFormat::Pkcs8 } else { aws || format == KeyFormat::Pkcs8 };
-    let kind_ok = aws || kind != KeyKind::P521;
+    let kind_ok = kind.backend_kind_ok();
     if !format_ok || !kind_ok {
         return None;
     }
@@ -165,7 +165,7 @@ pub fn run(prop: &str, tier: &str, replay: Option<&str>) -> i32 {
     {
         let mut cases: Vec<(usize, Entry, Option<Alg>)> = Vec::new();
         for (zi, z) in zoo.iter().enumerate() {
-            if matches!(z.kind, KeyKind::Rsa3072 | KeyKind::Rsa4096) && !thorough {
+            if z.kind.is_slow() && z.kind != KeyKind::Rsa6144 && !thorough {
                 continue;
             }
             for e in ENTRIES {
@@ -212,7 +212,7 @@ pub fn run(prop: &str, tier: &str, replay: Option<&str>) -> i32 {
     // 2. serialise / load cycles: load -> serialize_der -> load -> serialize_pem -> load through every entry point
     {
         let mut keys: Vec<(String, KeyPair, Alg, Vec<u8>, Vec<u8>, KeyFormat)> = Vec::new();
-        for z in zoo.iter().filter(|z| backend_supports(z.kind, z.format) && (thorough || !matches!(z.kind, KeyKind::Rsa3072 | KeyKind::Rsa4096))) {
+        for z in zoo.iter().filter(|z| backend_supports(z.kind, z.format) && (thorough || !z.kind.is_slow() || z.kind == KeyKind::Rsa6144)) {
             let algs: Vec<Alg> = if z.kind.is_rsa() { vec![Alg::RsaSha256, Alg::RsaSha384, Alg::RsaSha512] } else { vec![z.kind.natural_alg()] };
             for a in algs {
                 if let Ok(k) = rc_load(z, a) {
